@@ -809,7 +809,7 @@ Check C04_8_refuted : forall a b : N, exists pre l dbg hh, usv_list l /\
 Print Assumptions C04_8_refuted.
 
 (* finding F-C04-6: n calls of push("a") on file:/// cost at least n^2 steps (the file branch of
-   parse_path copies the whole path), on http://h/ at most 12 n + 1.  Full statement for all n kept as
+   parse_path copies the whole path), on http://h/ at most 14 n + 1.  Full statement for all n kept as
    a Definition; proved for n = 50, 100, 200 by computation. *)
 Definition C04_6_quadratic_statement : Prop :=
   forall n, N.of_nat n * N.of_nat n <= C04_CostPath.pushes_cost STFile 7 C04_CostPath.s_file_root n.
@@ -819,9 +819,9 @@ Theorem C04_6_refuted :
    /\ 200 * 200 <= C04_CostPath.pushes_cost STFile 7 C04_CostPath.s_file_root 200
    /\ 3 * C04_CostPath.pushes_cost STFile 7 C04_CostPath.s_file_root 100
       <= C04_CostPath.pushes_cost STFile 7 C04_CostPath.s_file_root 200)
-  /\ (C04_CostPath.pushes_cost STSpecialNotFile 8 C04_CostPath.s_http_root 50 <= 12 * 50 + 1
-      /\ C04_CostPath.pushes_cost STSpecialNotFile 8 C04_CostPath.s_http_root 100 <= 12 * 100 + 1
-      /\ C04_CostPath.pushes_cost STSpecialNotFile 8 C04_CostPath.s_http_root 200 <= 12 * 200 + 1).
+  /\ (C04_CostPath.pushes_cost STSpecialNotFile 8 C04_CostPath.s_http_root 50 <= 14 * 50 + 1
+      /\ C04_CostPath.pushes_cost STSpecialNotFile 8 C04_CostPath.s_http_root 100 <= 14 * 100 + 1
+      /\ C04_CostPath.pushes_cost STSpecialNotFile 8 C04_CostPath.s_http_root 200 <= 14 * 200 + 1).
 Proof. exact (conj C04_CostPath.pushes_file_quadratic_50_100_200 C04_CostPath.pushes_http_linear_50_100_200). Qed.
 Check C04_6_refuted :
   (50 * 50 <= C04_CostPath.pushes_cost STFile 7 C04_CostPath.s_file_root 50
@@ -829,9 +829,9 @@ Check C04_6_refuted :
    /\ 200 * 200 <= C04_CostPath.pushes_cost STFile 7 C04_CostPath.s_file_root 200
    /\ 3 * C04_CostPath.pushes_cost STFile 7 C04_CostPath.s_file_root 100
       <= C04_CostPath.pushes_cost STFile 7 C04_CostPath.s_file_root 200)
-  /\ (C04_CostPath.pushes_cost STSpecialNotFile 8 C04_CostPath.s_http_root 50 <= 12 * 50 + 1
-      /\ C04_CostPath.pushes_cost STSpecialNotFile 8 C04_CostPath.s_http_root 100 <= 12 * 100 + 1
-      /\ C04_CostPath.pushes_cost STSpecialNotFile 8 C04_CostPath.s_http_root 200 <= 12 * 200 + 1).
+  /\ (C04_CostPath.pushes_cost STSpecialNotFile 8 C04_CostPath.s_http_root 50 <= 14 * 50 + 1
+      /\ C04_CostPath.pushes_cost STSpecialNotFile 8 C04_CostPath.s_http_root 100 <= 14 * 100 + 1
+      /\ C04_CostPath.pushes_cost STSpecialNotFile 8 C04_CostPath.s_http_root 200 <= 14 * 200 + 1).
 Print Assumptions C04_6_refuted.
 
 (* ================================================================== 6. the Punycode cap *)
@@ -1414,7 +1414,7 @@ From RU Require Proofs.C04_CostPathUp Proofs.C04_CostPathDD Proofs.C02_AuthMain 
    (4) a computable sufficient condition for (2): a non-file scheme type and an input without '.' and '%' (dotfree),
        started at a segment boundary as parse_path does: then dd_count = 0 and parse_path costs <= 18 |input| + 5;
    (5) PathSegmentsMut::extend outside finding F-C04-6: for a non-file scheme type and dotfree segments the whole call
-       costs at most 18 per character + 7 per segment + 1 (file: URLs are quadratic: C04_6_refuted). *)
+       costs at most 20 per character (18 for parse_path, 2 for the skip test of extend) + 7 per segment + 1 (file: URLs are quadratic: C04_6_refuted). *)
 Theorem C04_cost_path_upper : forall dbg,
   (forall ctx st ps l ser ss pend hh, usv_list l -> usv_list pend ->
      snd (parse_path_loop_c dbg ctx st ps l ser ss pend hh)
@@ -1431,7 +1431,7 @@ Theorem C04_cost_path_upper : forall dbg,
      /\ snd (parse_path_c dbg ctx st hh ps ser l) <= 18 * nlen l + 5)
   /\ (forall st ps segs s, st_is_file st = false -> Forall usv_list segs -> Forall C04_CostPathDD.dotfree segs ->
      snd (psm_extend_loop_c dbg st ps s segs)
-     <= 18 * C04_CostPathDD.total_len segs + 7 * nlen (map nlen segs) + 1).
+     <= 20 * C04_CostPathDD.total_len segs + 7 * nlen (map nlen segs) + 1).
 Proof.
   intros dbg. split; [exact (C04_CostPathUp.path_cost_upper dbg)|]. split; [exact (C04_CostPathUp.path_cost_linear_no_dd dbg)|].
   split; [exact (C04_CostPathUp.path_cost_quadratic dbg)|]. split.
@@ -1457,7 +1457,7 @@ Check C04_cost_path_upper : forall dbg,
      /\ snd (parse_path_c dbg ctx st hh ps ser l) <= 18 * nlen l + 5)
   /\ (forall st ps segs s, st_is_file st = false -> Forall usv_list segs -> Forall C04_CostPathDD.dotfree segs ->
      snd (psm_extend_loop_c dbg st ps s segs)
-     <= 18 * C04_CostPathDD.total_len segs + 7 * nlen (map nlen segs) + 1).
+     <= 20 * C04_CostPathDD.total_len segs + 7 * nlen (map nlen segs) + 1).
 Print Assumptions C04_cost_path_upper.
 
 From RU Require Proofs.C04_CostPuny.
@@ -1537,7 +1537,7 @@ Definition C04_linear_statement : Prop :=
         C04_CostPathUp.dd_count dbg ctx st ps l ser ss pend hh = 0 ->
         snd (parse_path_loop_c dbg ctx st ps l ser ss pend hh) <= 44 * (nlen ser + nlen pend + nlen l) + 8)
   /\ (forall dbg st ps segs s, st_is_file st = false -> Forall usv_list segs -> Forall C04_CostPathDD.dotfree segs ->
-        snd (psm_extend_loop_c dbg st ps s segs) <= 18 * C04_CostPathDD.total_len segs + 7 * nlen (map nlen segs) + 1)
+        snd (psm_extend_loop_c dbg st ps s segs) <= 20 * C04_CostPathDD.total_len segs + 7 * nlen (map nlen segs) + 1)
   (* 7 MIME outside F-C04-9 *)
   /\ (forall s m, usv_list s -> Mime.parse s = Mime.Ok (Some m) ->
         C04_CostMime.mime_parse_cost s <= (14 + C04_CostMime.plen (Mime.m_params m)) * (nlen s + 1) + 4)
@@ -1610,27 +1610,26 @@ Qed.
 Definition C04_9_quadratic_statement : Prop :=
   forall n, N.of_nat n * (N.of_nat n - 1) <= 2 * C04_CostMime.mime_parse_cost (C04_CostMime.mime_distinct n).
 
-(* why the sufficient condition of C04_cost_path_upper (4) / (5) is on the CHARACTERS of a segment: push(".<TAB>.") is not
-   skipped by extend (only "." and ".." are), the Input iterator drops the TAB, the path state sees a double dot and POPS
-   the last segment: http://h/a/b becomes http://h/a/ in both configurations, whereas push("..") leaves the URL alone
-   (documented).  Replayed on the crate (see the final report of task c04fin); it is a frame-condition matter (C06), not a
-   panic or a cost finding. *)
-Theorem C04_push_tab_dotdot_witness :
-  Setters.path_segments_session true C04_CostPathDD.w_tab_url [Setters.PPush [46; 9; 46]]
-  = Some (mkUrl [104;116;116;112;58;47;47;104;47;97;47] 4 7 7 8 HI_Domain None 8 None None, Setters.SOk)
-  /\ Setters.path_segments_session false C04_CostPathDD.w_tab_url [Setters.PPush [46; 9; 46]]
-     = Some (mkUrl [104;116;116;112;58;47;47;104;47;97;47] 4 7 7 8 HI_Domain None 8 None None, Setters.SOk)
+(* F-C06-7, found by C04 as C04_push_tab_dotdot_witness, is FIXED (rust-url commit 9cd6187): extend() now makes its skip
+   test on the tab / LF / CR-free text of the segment - the text the path state will see - so push(".<TAB>.") is skipped
+   like push("..") and http://h/a/b is left alone in both configurations (before the repair the Input iterator dropped
+   the TAB, the path state saw a double dot and POPPED the segment b: http://h/a/).  The test scans the segment at most
+   twice (6 steps here), which is the 2 per character of C04_cost_path_upper (5); parse_path on that text would still
+   count one double dot (last clause) - the segment no longer reaches it. *)
+Theorem C04_push_tab_dotdot_fixed :
+  Setters.path_segments_session true C04_CostPathDD.w_tab_url [Setters.PPush [46; 9; 46]] = Some (C04_CostPathDD.w_tab_url, Setters.SOk)
+  /\ Setters.path_segments_session false C04_CostPathDD.w_tab_url [Setters.PPush [46; 9; 46]] = Some (C04_CostPathDD.w_tab_url, Setters.SOk)
   /\ Setters.path_segments_session true C04_CostPathDD.w_tab_url [Setters.PPush [46; 46]] = Some (C04_CostPathDD.w_tab_url, Setters.SOk)
+  /\ psm_skips_c [46; 9; 46] = (true, 6)
   /\ C04_CostPathUp.dd_count true CPathSegmentSetter STSpecialNotFile 8 [46; 9; 46] [104;116;116;112;58;47;47;104;47;97;47;98;47] 13 [] true = 1.
-Proof. exact C04_CostPathDD.push_tab_dotdot_witness. Qed.
-Check C04_push_tab_dotdot_witness :
-  Setters.path_segments_session true C04_CostPathDD.w_tab_url [Setters.PPush [46; 9; 46]]
-  = Some (mkUrl [104;116;116;112;58;47;47;104;47;97;47] 4 7 7 8 HI_Domain None 8 None None, Setters.SOk)
-  /\ Setters.path_segments_session false C04_CostPathDD.w_tab_url [Setters.PPush [46; 9; 46]]
-     = Some (mkUrl [104;116;116;112;58;47;47;104;47;97;47] 4 7 7 8 HI_Domain None 8 None None, Setters.SOk)
+Proof. exact C04_CostPathDD.push_tab_dotdot_fixed. Qed.
+Check C04_push_tab_dotdot_fixed :
+  Setters.path_segments_session true C04_CostPathDD.w_tab_url [Setters.PPush [46; 9; 46]] = Some (C04_CostPathDD.w_tab_url, Setters.SOk)
+  /\ Setters.path_segments_session false C04_CostPathDD.w_tab_url [Setters.PPush [46; 9; 46]] = Some (C04_CostPathDD.w_tab_url, Setters.SOk)
   /\ Setters.path_segments_session true C04_CostPathDD.w_tab_url [Setters.PPush [46; 46]] = Some (C04_CostPathDD.w_tab_url, Setters.SOk)
+  /\ psm_skips_c [46; 9; 46] = (true, 6)
   /\ C04_CostPathUp.dd_count true CPathSegmentSetter STSpecialNotFile 8 [46; 9; 46] [104;116;116;112;58;47;47;104;47;97;47;98;47] 13 [] true = 1.
-Print Assumptions C04_push_tab_dotdot_witness.
+Print Assumptions C04_push_tab_dotdot_fixed.
 
 (* C04_reached_premises for the LARGEST reachability relation of the development: CReach3 (Proofs/C05_CompSteps3.v) =
    parse, join and all 19 mutators - the Url setters, path_segments_mut sessions, query_pairs_mut sessions and the
